@@ -385,8 +385,11 @@ static int record(uint64_t seed, const std::string& tier, const std::string& out
 				latsh[j] = lat[j] + std::ldexp(g.coin() ? 1.0 : -1.0, sexp) * 0 + std::ldexp(1.0, sexp);
 			}
 			double v0 = Variance(lat), v1 = Variance(latsh);
-			T.emit({{"e", "Rel"}, {"kind", sexp == 20 ? "var-bigshift20" : "var-bigshift40"}, {"n", n}, {"q", quant(v1 - v0, 1e-7 * v0 + 1e-300)}});
-			T.emit({{"e", "Rel"}, {"kind", "sd-bigshift"}, {"n", n}, {"q", quant(Standard_Deviation(latsh) - std::sqrt(v0), 1e-7 * std::sqrt(v0) + 1e-300)}});
+			// a two-pass sum of squared deviations is accurate to about (n eps kappa)^2 relative, kappa = |mean| / spread (the rounding of the
+			// mean enters squared); a one-pass sum of squares is off by n eps kappa^2. Unit: 1e-7 + 4 (n eps kappa)^2.
+			double kappa = std::ldexp(1.0, sexp) / std::sqrt(std::max(v0, 1e-300)), relu = 1e-7 + 4.0 * std::pow(n * 2.220446049250313e-16 * kappa, 2.0);
+			T.emit({{"e", "Rel"}, {"kind", sexp == 20 ? "var-bigshift20" : "var-bigshift40"}, {"n", n}, {"q", quant(v1 - v0, relu * v0 + 1e-300)}});
+			T.emit({{"e", "Rel"}, {"kind", "sd-bigshift"}, {"n", n}, {"q", quant(Standard_Deviation(latsh) - std::sqrt(v0), relu * std::sqrt(v0) + 1e-300)}});
 		}
 		// translation and scaling with unequal weights: the mean moves with the data, the squared standard error is invariant resp. scales with k^2
 		std::vector<DataPoint> wsh = wd, wsl = wd;
